@@ -32,15 +32,8 @@ Definition oracle_ok (c : case) : bool :=
   | None => false
   end.
 
-(* known classes: 1 = a file is named again by an include while not on the inclusion stack
-   (diamond, double include): reported as a cycle; 2 = the depth limit is involved *)
-Definition known (c : case) : N :=
-  match ref_root (c_fs c) (c_lim c) (c_root c) (c_override c),
-        load_root (c_fs c) (c_lim c) [] (c_root c) (c_override c) with
-  | Some r, Some m =>
-      if ro_deep r || existsb (fun e => match e_kind e with ETooDeep => true | _ => false end) (o_errs m) then 2
-      else if ro_again r then 1 else 0
-  | _, _ => 0
-  end.
+(* no recorded finding is left for C10 (the two classes of the pinned tree -- a file reached again
+   reported as a cycle, the depth limit counting files -- were repaired in /repo) *)
+Definition known (c : case) : N := 0.
 
 Definition judge_all := judge_with tie_ok oracle_ok known.
